@@ -53,7 +53,7 @@ def nontrivial(line, ans):
     if not ans.startswith("ok"):
         return None
     op = line.split(" ", 1)[0]
-    if op in ("obj", "pickleleaf", "dumpobj"):
+    if op in ("obj", "pickleleaf", "dumpobj", "indep"):
         return None if ans.startswith("ok skip") else line
     if op == "sweep":
         return line
@@ -407,6 +407,22 @@ def _obj_cases(run, seeds):
                     yield f"obj {kind} {pk} {s} {profile}"
 
 
+def _indep_cases(run, seeds):
+    from harness.impl_serial import INDEP_PATHS
+    has_model = set(MODEL_KINDS)
+    for path in INDEP_PATHS:
+        for kind in G8.KINDS:
+            if path in ("state", "pickle") and kind != "ac":
+                continue
+            if path == "model" and kind not in has_model:
+                continue
+            for j, pk in enumerate(G8.PARENTS):
+                for s in seeds:
+                    profile = G8.PROFILES[(s + j) % len(G8.PROFILES)]
+                    run.count(f"indep:{path}:{kind}")
+                    yield f"indep {path} {kind} {pk} {s} {profile}"
+
+
 def cases(run):
     global EXHAUSTIVE_NOTE
     thorough = run.tier == "thorough"
@@ -430,6 +446,7 @@ def cases(run):
     yield from _digest2_cases(run, 400 if thorough else 40)
     yield from _schema_cases(run, 400 if thorough else 40)
     yield from _obj_cases(run, rnd)
+    yield from _indep_cases(run, range(base, base + (2 if not thorough else 10)))
     hashseeds = ",".join(str(i) for i in (range(32) if thorough else range(3)))
     for j, profile in enumerate(G8.PROFILES):
         run.count("sweep")
